@@ -96,8 +96,51 @@ func Instrument(dir, simrtDir string, env []string) (*Report, error) {
 	return rep, nil
 }
 
+// simIdent / simPath: the package the rewritten code calls into (verifsim for
+// goderive itself; RewriteMapRanges points them at another runtime).
+var simIdent, simPath = "verifsim", simImport
+
+// rangesOnly restricts rewriteFile to the map-range rule.
+var rangesOnly bool
+
 func sim(name string) ast.Expr {
-	return &ast.SelectorExpr{X: ast.NewIdent("verifsim"), Sel: ast.NewIdent(name)}
+	return &ast.SelectorExpr{X: ast.NewIdent(simIdent), Sel: ast.NewIdent(name)}
+}
+
+// RewriteMapRanges applies the map-range rule alone to the files selected by
+// only, in the packages matched by patterns under dir: every range over a map
+// iterates importPath.Keys(m, site) instead. It serves generated code under
+// test (seqsim), whose map iteration order the harness wants to own as well.
+func RewriteMapRanges(dir string, env, patterns []string, importPath, ident string, only func(path string) bool) ([]string, error) {
+	cfg := &packages.Config{
+		Mode: packages.NeedName | packages.NeedFiles | packages.NeedCompiledGoFiles | packages.NeedSyntax | packages.NeedTypes | packages.NeedTypesInfo | packages.NeedImports,
+		Dir:  dir,
+		Env:  env,
+	}
+	pkgs, err := packages.Load(cfg, patterns...)
+	if err != nil {
+		return nil, fmt.Errorf("loading %s: %v", dir, err)
+	}
+	oldIdent, oldPath := simIdent, simPath
+	simIdent, simPath, rangesOnly = ident, importPath, true
+	defer func() { simIdent, simPath, rangesOnly = oldIdent, oldPath, false }()
+	rep := &Report{}
+	for _, p := range pkgs {
+		if len(p.Errors) > 0 {
+			return nil, fmt.Errorf("package %s has errors: %v", p.PkgPath, p.Errors[0])
+		}
+		for i, f := range p.Syntax {
+			path := p.CompiledGoFiles[i]
+			if !only(path) {
+				continue
+			}
+			if _, err := rewriteFile(p, f, path, dir, rep); err != nil {
+				return nil, err
+			}
+		}
+	}
+	sort.Strings(rep.MapRanges)
+	return rep.MapRanges, nil
 }
 
 func simpleExpr(e ast.Expr) bool {
@@ -177,12 +220,18 @@ func rewriteFile(p *packages.Package, f *ast.File, path, root string, rep *Repor
 			rep.MapRanges = append(rep.MapRanges, site(n.Pos()))
 			changed = true
 		case *ast.SelectorExpr:
+			if rangesOnly {
+				return true
+			}
 			if id, ok := n.X.(*ast.Ident); ok && isOS(id) && fsFuncs[n.Sel.Name] {
 				c.Replace(sim(n.Sel.Name))
 				rep.FSCalls = append(rep.FSCalls, site(n.Pos())+" os."+n.Sel.Name)
 				changed = true
 			}
 		case *ast.CallExpr:
+			if rangesOnly {
+				return true
+			}
 			if sel, ok := n.Fun.(*ast.SelectorExpr); ok && sel.Sel.Name == "InitialPackages" {
 				if s := info.Selections[sel]; s != nil && strings.HasSuffix(s.Recv().String(), "go/loader.Program") {
 					if _, wrapped := c.Parent().(*ast.CallExpr); wrapped {
@@ -201,13 +250,13 @@ func rewriteFile(p *packages.Package, f *ast.File, path, root string, rep *Repor
 				}
 			}
 		case *ast.FuncDecl:
-			if p.Name == "main" && n.Name.Name == "main" && n.Recv == nil && n.Body != nil {
+			if !rangesOnly && p.Name == "main" && n.Name.Name == "main" && n.Recv == nil && n.Body != nil {
 				n.Body.List = append([]ast.Stmt{&ast.ExprStmt{X: &ast.CallExpr{Fun: sim("InstallBuildHooks")}}}, n.Body.List...)
 				rep.BuildHooks = append(rep.BuildHooks, site(n.Pos()))
 				changed = true
 			}
 		case *ast.CompositeLit:
-			if p.PkgPath == "github.com/awalterschulze/goderive" || p.Name == "main" {
+			if !rangesOnly && (p.PkgPath == "github.com/awalterschulze/goderive" || p.Name == "main") {
 				t := info.TypeOf(n)
 				if t != nil && strings.HasSuffix(t.String(), "goderive/derive.Plugin") && strings.HasPrefix(t.String(), "[]") {
 					if pc, ok := c.Parent().(*ast.CallExpr); ok && isSim(pc.Fun, "Shuffle") {
@@ -227,7 +276,7 @@ func rewriteFile(p *packages.Package, f *ast.File, path, root string, rep *Repor
 	if !changed {
 		return false, nil
 	}
-	astutil.AddImport(fset, f, simImport)
+	astutil.AddImport(fset, f, simPath)
 	if !astutil.UsesImport(f, "os") {
 		astutil.DeleteImport(fset, f, "os")
 	}
@@ -248,5 +297,5 @@ func isSim(e ast.Expr, name string) bool {
 		return false
 	}
 	id, ok := s.X.(*ast.Ident)
-	return ok && id.Name == "verifsim" && s.Sel.Name == name
+	return ok && id.Name == simIdent && s.Sel.Name == name
 }
